@@ -125,14 +125,32 @@ package common
 //@   modifies nothing
 
 //@ # ---- helpers of key generation (C16) ----
+//@ # legendre(n, m) is the Jacobi symbol (n/m) for odd m > 0; the five laws the binary algorithm uses are axioms (the last two are
+//@ # the supplementary law for 2 and quadratic reciprocity), instantiated at named calls - nothing else is assumed about the symbol
 //@ declare legendre/2
+//@ axiom legrange(n, m): 0 - 1 <= legendre(n, m) && legendre(n, m) <= 1
+//@ axiom legzero(m): m > 0 && m % 2 == 1 ==> legendre(0, m) == ite(m == 1, 1, 0)
+//@ axiom legmod(n, m): m > 0 && m % 2 == 1 ==> legendre(n, m) == legendre(rem(n, m), m)
+//@ axiom legtwo(n, m): m > 0 && m % 2 == 1 && n > 0 && n % 2 == 0 ==> legendre(n, m) == sgn(twosign(m), legendre(n / 2, m))
+//@ axiom legrecip(n, m): n > 0 && m > 0 && n % 2 == 1 && m % 2 == 1 ==> legendre(n, m) == sgn(ite(n % 4 == 3 && m % 4 == 3, 0 - 1, 1), legendre(m, n))
+//@ pred sgn(s, x) := ite(s == 1, x, 0 - x)
+//@ pred twosign(m) := ite(m % 8 == 3 || m % 8 == 5, 0 - 1, 1)
 //@ func LegendreSymbol
-//@   property C16
+//@   property C16 C19
+//@   nonlinear
 //@   safety
 //@   requires a != nil && p != nil && val(p) > 0
 //@   ensures range: result == 1 || result == 0 - 1 || result == 0
-//@   premise definition: result == legendre(val(a), val(p))
+//@   ensures[C19] jacobi: val(p) % 2 == 1 ==> result == legendre(val(a), val(p))
+//@   premise definition: val(p) % 2 == 0 ==> result == legendre(val(a), val(p))
 //@   modifies nothing
+//@   apply at Int).Set legmod(val(a), val(p))
+//@   apply at Int).Rsh legtwo(val($0), val(m))
+//@   apply at Int).Mod legrecip(val($2), val($1))
+//@   apply at Int).Mod legmod(val($1), val($2))
+//@   apply at Int).Cmp legzero(val($0))
+//@   loop 0 invariant val(p) % 2 == 1 ==> val(m) % 2 == 1 && sgn(j, legendre(val(n), val(m))) == legendre(val(a), val(p))
+//@   loop 1 invariant val(p) % 2 == 1 ==> val(m) % 2 == 1 && (t % 2 == 0 ==> sgn(j, legendre(val(n), val(m))) == legendre(val(a), val(p))) && (t % 2 != 0 ==> sgn(j, sgn(twosign(val(m)), legendre(val(n), val(m)))) == legendre(val(a), val(p)))
 //@   loop 0 invariant n != nil && m != nil && tmp != nil && fresh(n) && fresh(m) && fresh(tmp) && n != m && n != tmp && m != tmp && val(n) >= 0 && val(m) > 0 && (j == 1 || j == 0 - 1)
 //@   loop 1 invariant n != nil && m != nil && tmp != nil
 //@   loop 1 invariant fresh(n)
